@@ -1,6 +1,7 @@
 \* C14, safeAdd boundary grid through operations: the seven two-cost operation shapes x
 \* every pair of constants from the 12-point int grid {0,1,2,H-1,H,H+1,MAX-2,MAX-1,MAX,-1,-MAX,MIN}
 \* (H = (MAX-1)/2) x {enclosing field undefined, identity}.
+\* Measured: 7 trees, 1,885 inputs, 3,777 distinct states; ~5 s. -coverage 1: Init 7, ChooseCosts 1885, Compute 1885 (no action with count 0).
 CONSTANTS
   MaxH = 2
   MaxD = 1
